@@ -109,7 +109,8 @@ def explore(run, focus, n_random, hosts=("plain",), malformed_rate=0.0, exhausti
         elif focus == "C22":
             ops = gen_ops(rng, c, rng.randint(2, nops), q_rate=0.6)
         elif focus == "C23":
-            ops = gen_ops(rng, c, rng.randint(1, nops), q_rate=0.0)
+            # between two steps the program may query the chart: the names must still be right when it reads them afterwards
+            ops = gen_ops(rng, c, rng.randint(1, nops), q_rate=rng.choice([0.0, 0.0, 0.3]))
             if rng.random() < 0.3:
                 # the same chart object started again after some events
                 ops += [(0, rng.randrange(1, c.n + 1))] + [(1, rng.randrange(c.nsig)) for _ in range(rng.randint(0, 2))]
@@ -126,6 +127,9 @@ def explore(run, focus, n_random, hosts=("plain",), malformed_rate=0.0, exhausti
         if focus in ("C22", "C23") and (run.evaluations // (2 * len(hosts))) % 3 == 0:
             # decorated handlers on a host without instrumentation
             host, spied = ("plain", True) if host == "plain" else ("queued-off", True)
+        if host in ("queued", "queued-off") and src == "random" and (run.evaluations // 7) % 4 == 0:
+            c.parent_via_callback = True        # handlers in the register_parent style asking `chart.parent_callback()`
+            run.count("handlers ask the chart for their parent (parent_callback without argument)")
         real, hsm, fns = charts.run_real(c, ops, host=host, spied=spied)
         model = mo.split(" | ")
         spec = so.split(" | ")
@@ -142,6 +146,8 @@ def explore(run, focus, n_random, hosts=("plain",), malformed_rate=0.0, exhausti
             interesting = name_oracle(run, focus, c, ops, real, hsm, cj, host, spied) or interesting
         if focus == "C22" and mal is None:
             purity_oracle(run, c, ops, real, cj, host, spied)
+            if run.evaluations % 3 == 0:
+                foreign_query_oracle(run, c, ops, real, hsm, fns, cj, host, spied)
             if run.evaluations % 4 == 0:
                 second_object_oracle(run, c, ops, real, fns, cj, host, spied)
         run.case(cj, nontrivial=interesting)
@@ -295,7 +301,7 @@ def name_oracle(run, focus, c, ops, real, hsm, cj, host, spied):
         want = "s%d" % cur
         nm = names[idx]
         is_query = o in (2, 3)
-        if (focus == "C22") != is_query:
+        if focus == "C22" and not is_query:
             continue
         hit = True
         run.count("name check host=%s spied=%s %s" % (host, spied, "query" if is_query else "step"))
@@ -325,6 +331,45 @@ def second_object_oracle(run, c, ops, real, fns, cj, host, spied):
         if r1["kind"] != r2["kind"] or (o in (2, 3) and r1.get("res") != r2.get("res")) or r1.get("state") != r2.get("state"):
             run.violate("C22/second-object", "op %s on a second chart object that uses the same state functions: %s; on the first object: %s"
                         % ((o, a), real2[i].split(" log=")[0], real[i].split(" log=")[0]), cj_upto(cj, i))
+            return
+
+
+def foreign_query_oracle(run, c, ops, real, hsm, fns, cj, host, spied):
+    """queries whose argument is NOT a state of this chart although it looks like one: the function of the like-named state of a
+    second build of the same design (a distinct function object with the same __name__), another chart object's `top`:
+    is_in answers False, child_state fails, the chart stays where it is"""
+    if not real or parse(real[-1])["kind"] != "ok" or len(real) != len(ops):
+        return
+    cur = int(parse(real[-1])["state"])
+    if cur <= 0:
+        return
+    twins = c.build([], spied=spied)
+    other = type(hsm)()
+    path = c.path(cur)
+    run.count("queries with a like-named function that is not a state of this chart")
+    for i in path[:3] + [0]:
+        arg = twins[i] if i else other.top
+        what = "the like-named state function s%d of another build of the design" % i if i else "another chart object's top"
+        try:
+            res = hsm.is_in(arg)
+        except Exception as ex:  # noqa
+            res = "raised %s" % type(ex).__name__
+        if res is not False:
+            run.violate("C22/is_in-foreign-argument", "in state s%d, is_in(%s) answered %r" % (cur, what, res), cj)
+            return
+        try:
+            got = hsm.child_state(arg)
+            run.violate("C22/child_state-foreign-argument", "in state s%d, child_state(%s) returned %s instead of failing"
+                        % (cur, what, getattr(got, "__name__", got)), cj)
+            return
+        except AssertionError:
+            pass
+        except Exception as ex:  # noqa
+            run.violate("C22/child_state-foreign-argument", "in state s%d, child_state(%s) raised %s" % (cur, what, type(ex).__name__), cj)
+            return
+        if hsm.state.fun is not fns[cur] or hsm.temp.fun is not fns[cur]:
+            run.violate("C22/query-changes-state", "after queries with %s the chart's state/temp handlers are %s/%s, it was in s%d"
+                        % (what, getattr(hsm.state.fun, "__name__", "?"), getattr(hsm.temp.fun, "__name__", "?"), cur), cj)
             return
 
 
